@@ -335,6 +335,9 @@ def run_unit(scratch, prop, unit, exp, tier):
                                           values=None, reproduced=False, verifier_output=f["rendered"], snippet=f["snippet"], unit=unit))
     res["verified_count"] = vresults.get("verified", 0)
     res["error_count"] = vresults.get("errors", 0)
+    res["unit_summary"] = [dict(unit=unit, verus_verified=vresults.get("verified", 0), verus_errors=vresults.get("errors", 0),
+                                extracted_functions=len(info), smt_total_ms=js.get("times-ms", {}).get("smt", {}).get("total"),
+                                verus_total_ms=js.get("times-ms", {}).get("total"))]
     return res
 
 
@@ -343,7 +346,7 @@ def run_units(scratch, prop, units, tier):
     if not have:
         return {}
     ok, blog = ensure_k2v()
-    out = dict(violations=[], undecided=[], units=[], cmds=[], trusted=[], probes=None)
+    out = dict(violations=[], undecided=[], units=[], cmds=[], trusted=[], probes=None, unit_summary=[])
     if not ok:
         out["undecided"].append("engine V: k2v is not built (run bin/setup):\n" + blog)
         return out
@@ -367,6 +370,6 @@ def run_units(scratch, prop, units, tier):
         t.join()
     for u in have:
         r = results[u]
-        for k in ("violations", "undecided", "units", "cmds", "trusted"):
+        for k in ("violations", "undecided", "units", "cmds", "trusted", "unit_summary"):
             out[k] += r.get(k, [])
     return out
